@@ -286,7 +286,7 @@ def main(argv=None):
         mutants = mutant_selftest(pid, P)
         for m in mutants:
             if not m["caught"]:
-                lines.append("NOTE property=%s self-test mutant not caught: %s" % (pid, m["patch"]))
+                lines.append("NOTE property=%s self-test %s: %s" % (pid, "refactoring not accepted" if "kind" in m else "mutant not caught", m["patch"]))
 
     wall = time.time() - t_start
     for ln in lines:
@@ -384,7 +384,8 @@ def mutant_selftest(pid, P):
                     pats.append(rp)
     except Exception:      # noqa
         pass
-    for patch in pats:
+    benign = sorted(glob.glob(os.path.join(VERIF, "refactorings", pid + "__*.diff")))     # behaviour-preserving edits: the check must stay green
+    for patch in pats + benign:
         d = tempfile.mkdtemp(prefix="pyvc_mut_")
         try:
             shutil.copytree("/repo/Pyro5", os.path.join(d, "repo", "Pyro5"), ignore=shutil.ignore_patterns("__pycache__"))
@@ -395,8 +396,12 @@ def mutant_selftest(pid, P):
             env = dict(os.environ, PYVC_REPO=os.path.join(d, "repo"))
             p = subprocess.run([sys.executable, "-m", "pyvc.check", pid, "--tier", "quick", "--no-evidence"], cwd=VERIF, env=env, capture_output=True, text=True, timeout=1800)
             viol = [ln for ln in p.stdout.splitlines() if ln.startswith("VIOLATION")]
-            res.append({"patch": os.path.relpath(patch, VERIF), "caught": p.returncode == 1, "exit": p.returncode,
-                        "obligations_refuted": [v.split("obligation=")[-1] for v in viol][:5]})
+            if patch in benign:
+                res.append({"patch": os.path.relpath(patch, VERIF), "kind": "behaviour-preserving refactoring (must stay green)", "caught": p.returncode == 0,
+                            "exit": p.returncode})
+            else:
+                res.append({"patch": os.path.relpath(patch, VERIF), "caught": p.returncode == 1, "exit": p.returncode,
+                            "obligations_refuted": [v.split("obligation=")[-1] for v in viol][:5]})
         finally:
             shutil.rmtree(d, ignore_errors=True)
     return res
